@@ -22,8 +22,9 @@ identifies a random variable) and the position inside that call's array.
 * `Out.calls` – every distribution call in program order (the consumption trace the harness replays
   with real numpy generators).
 
-`Variant` selects the code as it is (`asIs`) or the behaviour the property demands (`intended`) at
-the two places where chi is defective (Appendix A #14).
+`Variant` selects the code as it is (`asIs`, after the `fix:` commits 80b4fea, d48fa6e, b1514f4) or the
+pre-fix behaviour (`legacy`, kept for the counterexample theorems only) at the three places where chi
+was defective (Appendix A #14).
 -/
 namespace ChiModel.Seeds
 open ChiModel
@@ -239,20 +240,25 @@ def popSample (p : Pop) (n : Nat) : Sampler :=
 
 /-! ## predictive models (`chi/_predictive_models.py`) -/
 
-/-- the two places where the code as it is departs from the property (Appendix A #14) -/
+/-- the three places where the code *was* defective (Appendix A #14); every field set as in `asIs` is
+    the code as it is now -/
 structure Variant where
-  /-- `PredictiveModel.sample` hands `seed` itself to every error model -/
+  /-- pre-fix `PredictiveModel.sample`: `seed` itself handed to every error model (now: one generator
+      built from the seed and threaded through, 80b4fea) -/
   sharedSeed : Bool
-  /-- `PAMPredictiveModel.sample` chooses the models with `np.random.choice` -/
+  /-- pre-fix `PAMPredictiveModel.sample`: models chosen with `np.random.choice` (now: with the seeded
+      generator, d48fa6e) -/
   globalChoice : Bool
-  /-- `PriorPredictiveModel.sample` with a `Generator`: `none` — as it is, `np.random.seed(Generator)`
-      raises; `some s'` — repaired: `seed = int(seed.integers(0, 1e6))`, and `s'` is the value that
+  /-- `PriorPredictiveModel.sample` with a `Generator`: `none` — pre-fix, `np.random.seed(Generator)`
+      raises; `some s'` — now (b1514f4): `seed = int(seed.integers(0, 1e6))`, and `s'` is the value that
       call returned (every outcome of the draw is covered, like the allocation of PAM) -/
   priorGen : Option Int := Option.none
   deriving DecidableEq, Repr
 
-def asIs : Variant := ⟨true, true, Option.none⟩
-def intended : Variant := ⟨false, false, Option.none⟩
+/-- the code as it is; `priorDraw` is the value `PriorPredictiveModel` would draw from a `Generator` seed -/
+def asIs (priorDraw : Int) : Variant := ⟨false, false, some priorDraw⟩
+/-- the code before the `fix:` commits -/
+def legacy : Variant := ⟨true, true, Option.none⟩
 
 /-- `PredictiveModel.sample` (array form, shape `(n_outputs, n_times, n_samples)`) -/
 def predSample (v : Variant) (kinds : List EM) (nT nS : Nat) : Sampler :=
